@@ -971,6 +971,55 @@ pub fn extras(thorough: bool) -> Vec<Extra> {
             });
         }
     }
+    // (o) DISTINCT x ORDER BY x LIMIT x OFFSET over a column with duplicates: every combination (the row a LIMIT / OFFSET picks
+    //     depends on whether duplicates were removed first and on the order)
+    for distinct in [false, true] {
+        for order in [None, Some(false), Some(true)] {
+            for limit in [None, Some(0u64), Some(1), Some(2), Some(3)] {
+                for offset in [None, Some(0u64), Some(1), Some(2), Some(3)] {
+                    v.push(Extra {
+                        name: format!("distinct-limit-offset distinct={distinct} order={order:?} limit={limit:?} offset={offset:?}"),
+                        real: Box::new(move |d, build| {
+                            let mut q = Query::select();
+                            q.column(a("b")).from(a("t1"));
+                            if distinct {
+                                q.distinct();
+                            }
+                            if let Some(desc) = order {
+                                q.order_by(a("b"), if desc { Order::Desc } else { Order::Asc });
+                            }
+                            if let Some(l) = limit {
+                                q.limit(l);
+                            }
+                            if let Some(o) = offset {
+                                q.offset(o);
+                            }
+                            render_sel(&q, d, build)
+                        }),
+                        reference: Box::new(move |d, build| {
+                            if d == Dialect::Mysql && offset.is_some() && limit.is_none() {
+                                return None; // MySQL has no OFFSET without LIMIT
+                            }
+                            let mut n = 0;
+                            let mut s = format!("SELECT {}{} FROM {}", if distinct { "DISTINCT " } else { "" }, qd(d, "b"), qd(d, "t1"));
+                            if let Some(desc) = order {
+                                s.push_str(&format!(" ORDER BY {} {}", qd(d, "b"), if desc { "DESC" } else { "ASC" }));
+                            }
+                            if let Some(l) = limit {
+                                n += 1;
+                                s.push_str(&format!(" LIMIT {}", ph(d, build, n, &l.to_string())));
+                            }
+                            if let Some(o) = offset {
+                                n += 1;
+                                s.push_str(&format!(" OFFSET {}", ph(d, build, n, &o.to_string())));
+                            }
+                            Some(s)
+                        }),
+                    });
+                }
+            }
+        }
+    }
     // (g) PostgreSQL operators and functions in WHERE, between two other conditions; MySQL has none of them
     let pg_ops: Vec<(&'static str, PgBinOper)> = vec![
         ("ILIKE", PgBinOper::ILike),
@@ -1395,7 +1444,7 @@ pub fn extras(thorough: bool) -> Vec<Extra> {
 /// one construct = one key: the family name (for the parameterised families the first word)
 pub fn family_of(name: &str) -> String {
     let first = name.split(' ').next().unwrap_or("").to_string();
-    if ["index-hints", "named-window", "with", "lock", "tablesample", "distinct-on", "order-by", "window-frame", "values-table", "cte-from-select"].contains(&first.as_str()) {
+    if ["index-hints", "named-window", "with", "lock", "tablesample", "distinct-on", "order-by", "window-frame", "values-table", "cte-from-select", "distinct-limit-offset"].contains(&first.as_str()) {
         first
     } else {
         name.split(' ').take(2).collect::<Vec<_>>().join(" ")
